@@ -22,7 +22,7 @@ RULE = ("random pipelines of 1-3 writer probes (each followed by a snapshot prob
         "distinct = distinct (plans, dtypes, schedule, layout, debug) signatures")
 ASSUMPTIONS = ["float buckets are compared by value after lossless widening to float64 (only the image dtype is pinned by the statement)",
                "a bucket not written in some step of a multi-step run must show no data (NaN) for that step"]
-REQUIRED_COUNTERS = ["runs", "slices_compared", "time_labels_checked", "image_dtype_checks", "layout_pairs",
+REQUIRED_COUNTERS = ["debug_after_earlier_debug_run", "runs", "slices_compared", "time_labels_checked", "image_dtype_checks", "layout_pairs",
                      "debug_pairs", "debug_nodes_compared", "scene_checks", "data_checks", "photon3d_runs"]
 TIMEOUT = {"quick": 600, "thorough": 3000}
 LEVEL_TEXT = ("Exploration by runtime monitoring: each generated run is executed by the real exposure loop; the returned "
@@ -100,12 +100,18 @@ def pipeline_spec(case):
     return pspec
 
 
-def execute(case, hier, debug):
+def execute(case, hier, debug, prior_debug_run=False):
     import pyxel
     from pyxel.exposure import Exposure, Readout
-    probes.reset()
     dspec = build.default_detector_spec(case["detector"], case["rows"], case["cols"])
     detector = build.make_detector(dspec)
+    if prior_debug_run:
+        # an earlier debug run on the SAME detector, with other models in another group
+        old = {"charge_transfer": [{"name": "old0", "func": "vf.probes.writer2",
+                                    "arguments": {"plan": {"*": ["photon", "signal", "image", "pixel+"]}, "seed": 4242}}]}
+        pyxel.run_mode(mode=Exposure(readout=Readout(times=[1.0, 2.0, 3.0, 4.0, 5.0, 6.0, 7.0])), detector=detector,
+                       pipeline=build.make_pipeline(old), with_inherited_coords=True, debug=True)
+    probes.reset()
     mode = Exposure(readout=Readout(times=case["times"], start_time=case["start"],
                                     non_destructive=case["non_destructive"]))
     tree = pyxel.run_mode(mode=mode, detector=detector, pipeline=build.make_pipeline(pipeline_spec(case)),
@@ -316,9 +322,18 @@ def run_one(rec, index, case):
         if diff:
             rec.violation("C03:layouts-differ", diff, case, index)
     # debug capture must not alter the result and must record post-model states
-    tree_d, ev_d, _ = execute(case, hier=True, debug=True)
+    prior = index % 2 == 1
+    tree_d, ev_d, _ = execute(case, hier=True, debug=True, prior_debug_run=prior)
     rec.count("runs")
     rec.count("debug_pairs")
+    if prior:
+        rec.count("debug_after_earlier_debug_run")
+        mine = {f"w{k}" for k in range(len(case["writers"]))} | {f"s{k}" for k in range(len(case["writers"]))} | {"last"}
+        stale = sorted({g for g in tree_d.groups if g.startswith("/intermediate/time_idx_") and g.count("/") == 4
+                        and g.rsplit("/", 1)[1] not in mine})
+        if stale:
+            rec.violation("C03:debug:nodes-of-an-earlier-run-returned",
+                          f"/intermediate holds nodes recorded by an earlier run on the same detector: {stale[:4]}", case, index)
     check_result(rec, tree_d, True, ev_d, case, index, "debug")
     diff = same_buckets(bucket_ds(tree_h, True), bucket_ds(tree_d, True))
     if diff:
